@@ -80,6 +80,11 @@ func (ls *LenState) lb(v ssa.Value, st map[ssa.Value]int64, depth int) int64 {
 		up(ls.lb(x.X, st, depth+1))
 	case *ssa.Call:
 		ci := InfoOf(&x.Call)
+		if ci.Static != nil {
+			if h, ok := ResultLenHints[ci.Static]; ok {
+				up(h)
+			}
+		}
 		if ci.Is("strings.SplitN") || ci.Is("strings.Split") {
 			okN := true
 			if ci.Is("strings.SplitN") {
@@ -343,7 +348,43 @@ var ParamLenHints = map[ssa.Value]int64{}
 // ComputeParamLenHints derives, for each unexported function among fns whose
 // call sites are all static calls within fns, the minimum over its call sites
 // of the length lower bound of each slice/string argument.
+// ResultLenHints: for a module function with a single string/slice result,
+// a lower bound of the length of what it returns (minimum over its returns).
+var ResultLenHints = map[*ssa.Function]int64{}
+
+func computeResultLenHints(fns []*ssa.Function) {
+	for _, f := range fns {
+		if f.Blocks == nil || f.Signature.Results().Len() != 1 {
+			continue
+		}
+		switch f.Signature.Results().At(0).Type().Underlying().(type) {
+		case *types.Slice, *types.Basic:
+		default:
+			continue
+		}
+		if b, ok := f.Signature.Results().At(0).Type().Underlying().(*types.Basic); ok && b.Kind() != types.String {
+			continue
+		}
+		rets := Returns(f)
+		if len(rets) == 0 {
+			continue
+		}
+		fl := LenFlow(f)
+		best := int64(-1)
+		for _, r := range rets {
+			n := fl.At(r.Results[0], r)
+			if best < 0 || n < best {
+				best = n
+			}
+		}
+		if best > 0 {
+			ResultLenHints[f] = best
+		}
+	}
+}
+
 func ComputeParamLenHints(fns []*ssa.Function) {
+	computeResultLenHints(fns)
 	type site struct {
 		caller *ssa.Function
 		call   *ssa.Call
